@@ -395,6 +395,7 @@ static void run_case (char *line) {
   MIR_set_error_func (ctx, err_func);
   if (setjmp (err_jmp)) {
     printf ("E:%s\n", err_name (err_code));
+    if (setjmp (err_jmp) == 0) MIR_finish_module (ctx); /* in case the module is half built */
     if (setjmp (err_jmp) == 0) { /* best-effort teardown; a complaint about unfinished items is swallowed */
       if (gen_inited) {
         gen_inited = 0;
